@@ -672,9 +672,13 @@ def point_in(draw, ctype):
     """coordinates of a point in a system of the given type, away from the polar singularities"""
     if ctype == cs.RECT:
         return [draw(_f(-10, 10)), draw(_f(-10, 10)), draw(_f(-10, 10))]
+    # azimuth: anywhere, or exactly on / next to a cardinal direction (structured layouts: bolt circles at
+    # 0/90/180/270 degrees; branch points of atan2-based local-frame code)
+    az = st.one_of(_f(-360, 360), st.sampled_from([0.0, 90.0, 180.0, 270.0, -90.0, -180.0, 360.0, 180.0000001,
+                                                    179.9999999, 45.0, 135.0]))
     if ctype == cs.CYL:
-        return [draw(_f(0.1, 10)), draw(_f(-360, 360)), draw(_f(-10, 10))]
-    return [draw(_f(0.1, 10)), draw(_f(5, 175)), draw(_f(-360, 360))]
+        return [draw(_f(0.1, 10)), draw(az), draw(_f(-10, 10))]
+    return [draw(_f(0.1, 10)), draw(st.one_of(_f(5, 175), st.sampled_from([90.0, 45.0]))), draw(az)]
 
 
 @st.composite
@@ -709,7 +713,8 @@ def grid_lists(draw, systems, nmin=2, nmax=8, allow_q=True):
     grids = []
     for k in range(n):
         cin = draw(st.sampled_from(choices))
-        cout = draw(st.sampled_from(choices))
+        # (a third of the grids are output in the system they are entered in: cardinal azimuths stay cardinal)
+        cout = cin if draw(st.integers(0, 2)) == 0 else draw(st.sampled_from(choices))
         xyz = draw(point_in(resolved[cin].ctype))
         p = cs.to_basic(resolved[cin], xyz)
         # displacement directions are undefined on the polar axis of the output system
